@@ -148,7 +148,80 @@ def _compare(idx, ref, what, h=None):
     require(idx.empty == ref.empty, lambda: f"INV {what}: empty")
 
 
-HARNESS = {"h_inv": hc.h_inv, "h_index_step": h_index_step}
+def h_xval(params):
+    """The cross-validation scenario of c06_ch.py under the lean engine."""
+    from tinyflux import Point, TagQuery, TimeQuery, TinyFlux
+    from tinyflux.storages import MemoryStorage
+
+    from .. import symtime
+    from ..symtime import SymTime
+
+    TAGS = [{}, {"k": "a"}, {"k": "b"}]
+    symtime.CLOCK.reset()
+    lpe.HASH_OK[0] = True
+    if lpe.is_symbolic():
+        symtime.install()
+    try:
+        ts = [sym_int(f"t{i}") for i in range(3)]
+        x = sym_int("x")
+        ss = [choose(f"s{i}", 3) for i in range(3)]
+        valid = lpe.sym_bool("valid")
+        ai = lpe.sym_bool("ai")
+        mk = (lambda us: SymTime(us, 0)) if lpe.is_symbolic() else symtime.mk_time
+        pts = [Point(time=mk(ts[i]), measurement="m", tags=dict(TAGS[ss[i]])) for i in range(3)]
+        db = TinyFlux(storage=MemoryStorage, auto_index=ai)
+        db._storage._memory = list(pts)
+        if valid:
+            db._index.build(pts)
+        else:
+            db._index.invalidate()
+        n = db.remove(TagQuery().k == "a")
+        keep = [i for i in range(3) if ss[i] != 1]
+        require(n == 3 - len(keep), lambda: f"remove returned {n}")
+        got = db.count(TimeQuery() >= mk(x))
+        exp = 0
+        for i in keep:
+            if ts[i] >= x:
+                exp += 1
+        require(got == exp, lambda: f"count {got}, expected {exp}")
+    finally:
+        lpe.HASH_OK[0] = False
+        symtime.uninstall()
+
+
+HARNESS = {"h_inv": hc.h_inv, "h_index_step": h_index_step, "h_xval": h_xval}
+
+
+def crosscheck(results):
+    """lean engine vs CrossHair on the shared obligation: same verdict; path counts side by side."""
+    by = {r["id"]: r for r in results}
+    a, b = by.get("xval/lpe"), by.get("xval/crosshair")
+    if not a:
+        return None, []
+    info = {"obligation": "3 symbolic points in MemoryStorage, built/invalid index, remove(tag k=='a'), count(TimeQuery() >= x) vs model", "lpe": {"verdict": a["verdict"], "paths": a.get("paths"), "smt_queries": a.get("queries"), "wall_s": a.get("ob_wall_s")}}
+    errs = []
+    if b:
+        info["crosshair"] = {"verdict": b["verdict"], "paths": b.get("paths"), "smt_queries": b.get("queries"), "wall_s": b.get("ob_wall_s")}
+        if b["verdict"] in ("holds", "cex") and a["verdict"] in ("holds", "cex") and a["verdict"] != b["verdict"]:
+            errs.append(f"engines disagree on the shared obligation: lpe {a['verdict']} vs CrossHair {b['verdict']}")
+        if a["verdict"] == b["verdict"] == "holds" and a.get("paths") and b.get("paths"):
+            info["path_count_ratio"] = round(a["paths"] / b["paths"], 4)
+    else:
+        info["crosshair"] = "thorough tier only (about 180-300 CPU-s)"
+    return info, errs
+
+
+def replay(body):
+    if body.get("engine") == "ch":
+        import sys
+
+        from .. import chdrv
+
+        return chdrv.replay_body(sys.modules[__name__], body)
+    from ..run import _shift_to_real_clock
+
+    params = dict(body["params"] or {})
+    return lpe.ConcreteEngine(_shift_to_real_clock(body["inputs"] or {})).run(lambda: HARNESS[body["harness"]](params))
 
 
 def _ob(oid, ops, ai, budget=60, **kw):
@@ -170,10 +243,13 @@ def obligations(tier):
             if d >= 2 and not any(x in mut for x in s):
                 continue
             seqs.append(s)
+    npts = {"ins": 1, "ins_notime": 1, "insm": 2, "insm_fail": 1}
     for ai in (True, False):
         for s in seqs:
+            if len(s) >= 3 and 1 + sum(npts.get(x, 0) for x in s) > 4:
+                continue  # more than 4 points: 541+ time orderings per skeleton; covered by the hand-picked deep skeletons
             # thorough: depth 3 with fixed tags; depth <= 2 additionally with symbolic tags/measurements and two pre-inserts
-            rich = th and len(s) <= 2
+            rich = th and len(s) == 1
             also = ["tag", "meas"] if rich else []
             if any(x in ("rm_notfield",) for x in s):
                 also.append("field")
@@ -191,10 +267,14 @@ def obligations(tier):
     ]
     for ai in (True, False):
         for s in deep:
-            obs.append(_ob(f"deep/{'ai' if ai else 'noai'}/{','.join(s)}", [OPS[x] for x in s], ai, also=(["tag", "meas"] if "drop" in s else ["tag"]) if th else [], budget=300 if not th else 900))
+            obs.append(_ob(f"deep/{'ai' if ai else 'noai'}/{','.join(s)}", [OPS[x] for x in s], ai, also=["tag"] if th else [], budget=300 if not th else 900))
     for n in (1, 2, 3) + ((4,) if th else ()):
         for via in (False, True):
             obs.append({"id": f"step/remove/n{n}/{'insert-built' if via else 'build'}", "harness": "h_index_step", "params": {"n": n, "via_insert": via, "then_insert": True}, "budget_s": 120 if not th else 900})
+    # cross-validation of the lean engine against CrossHair on one database-level obligation
+    obs.append({"id": "xval/lpe", "harness": "h_xval", "params": {}, "budget_s": 300})
+    if th:
+        obs.append({"id": "xval/crosshair", "engine": "ch", "harness": "h_xval", "params": {}, "budget_s": 1500, "per_path_s": 60})
     obs.append(_ob("twin/hist", [OPS["ins"], OPS["ins"], OPS["rm_tag"]], True, twin=True))
     obs.append({"id": "twin/step", "harness": "h_index_step", "params": {"n": 2, "twin": True}, "budget_s": 60})
     return obs
